@@ -198,13 +198,13 @@ func (c *checker) rlpDiff(t *rlpTarget, in []byte, mut string, vd *valueDesc) st
 	mk := func() kase {
 		return kase{Phase: "rlp", RLP: &rlpCase{Kind: "bytes", Target: t.Name, Hex: hex.EncodeToString(in), Mut: mut, Value: vd}}
 	}
-	if p, v, st := core.Try(func() { ei = irlp.DecodeBytes(in, pi) }); p {
+	if p, v, site := tryFast(func() { ei = irlp.DecodeBytes(in, pi) }); p {
 		k := mk()
-		c.report(map[string]string{"phase": "rlp", "kind": "panic", "site": panicSite(st), "panic": panicClass(v), "target": t.Name}, k,
+		c.report(map[string]string{"phase": "rlp", "kind": "panic", "site": site, "panic": panicClass(v), "target": t.Name}, k,
 			fmt.Sprintf("in-tree rlp.DecodeBytes(%x) into %s panicked: %v", clip(in), t.Name, core.FirstLine(v)))
 		return "panic"
 	}
-	if p, v, _ := core.Try(func() { eu = urlp.DecodeBytes(in, pu) }); p {
+	if p, v, _ := tryFast(func() { eu = urlp.DecodeBytes(in, pu) }); p {
 		eu = fmt.Errorf("upstream panic: %v", core.FirstLine(v))
 	}
 	if (ei == nil) != (eu == nil) {
@@ -243,59 +243,89 @@ func clipStr(s string) string {
 }
 
 // rawDiff compares the raw.go helpers (used by the trie decoder).
+type rawResult struct {
+	kind          int
+	content, rest []byte
+	splitErr      bool
+	count         int
+	countErr      bool
+	isList, isStr bool
+}
+
+func (a rawResult) equal(b rawResult) bool {
+	return a.kind == b.kind && bytes.Equal(a.content, b.content) && bytes.Equal(a.rest, b.rest) && a.splitErr == b.splitErr &&
+		a.count == b.count && a.countErr == b.countErr && a.isList == b.isList && a.isStr == b.isStr
+}
+
 func (c *checker) rawDiff(in []byte) {
 	atomic.AddInt64(&c.evals, 1)
 	mk := func() kase {
 		return kase{Phase: "rlp", RLP: &rlpCase{Kind: "bytes", Target: "raw.Split/CountValues", Hex: hex.EncodeToString(in)}}
 	}
-	var a, b string
-	if p, v, st := core.Try(func() {
+	var a, b rawResult
+	if p, v, site := tryFast(func() {
 		kd, content, rest, err := irlp.Split(in)
 		n, err2 := irlp.CountValues(in)
-		a = fmt.Sprintf("%d/%x/%x/%v|%d/%v", kd, content, rest, err != nil, n, err2 != nil)
-		if _, _, e := irlp.SplitList(in); e == nil {
-			a += "|list"
-		}
-		if _, _, e := irlp.SplitString(in); e == nil {
-			a += "|string"
-		}
+		a = rawResult{kind: int(kd), content: content, rest: rest, splitErr: err != nil, count: n, countErr: err2 != nil}
+		_, _, e := irlp.SplitList(in)
+		a.isList = e == nil
+		_, _, e = irlp.SplitString(in)
+		a.isStr = e == nil
 	}); p {
-		c.report(map[string]string{"phase": "rlp", "kind": "panic", "site": panicSite(st), "panic": panicClass(v), "target": "raw"}, mk(),
+		c.report(map[string]string{"phase": "rlp", "kind": "panic", "site": site, "panic": panicClass(v), "target": "raw"}, mk(),
 			fmt.Sprintf("in-tree rlp.Split/CountValues(%x) panicked: %v", in, core.FirstLine(v)))
 		return
 	}
-	core.Try(func() {
+	tryFast(func() {
 		kd, content, rest, err := urlp.Split(in)
 		n, err2 := urlp.CountValues(in)
-		b = fmt.Sprintf("%d/%x/%x/%v|%d/%v", kd, content, rest, err != nil, n, err2 != nil)
-		if _, _, e := urlp.SplitList(in); e == nil {
-			b += "|list"
-		}
-		if _, _, e := urlp.SplitString(in); e == nil {
-			b += "|string"
-		}
+		b = rawResult{kind: int(kd), content: content, rest: rest, splitErr: err != nil, count: n, countErr: err2 != nil}
+		_, _, e := urlp.SplitList(in)
+		b.isList = e == nil
+		_, _, e = urlp.SplitString(in)
+		b.isStr = e == nil
 	})
-	if a != b {
+	if !a.equal(b) {
 		c.report(map[string]string{"phase": "rlp", "kind": "value-differs", "target": "raw"}, mk(),
-			fmt.Sprintf("rlp.Split/CountValues(%x): in-tree %s, upstream %s", in, a, b))
+			fmt.Sprintf("rlp.Split/CountValues(%x): in-tree %+v, upstream %+v", in, a, b))
 	}
 }
 
-// rlpExhaustive: every byte string of length <= maxLen.
+// rlpExhaustive: every byte string of length <= maxLen into every target;
+// strings of length 3 go into the first coreTargets targets only.
+const coreTargets = 7
+
+var rlpOutcomes = []string{"error", "value", "mismatch", "panic"}
+
+func outcomeIndex(s string) int {
+	for i, o := range rlpOutcomes {
+		if o == s {
+			return i
+		}
+	}
+	return 0
+}
+
 func (c *checker) rlpExhaustive(maxLen int) (inputs int64) {
 	targets := rlpTargets()
-	// jobs: one per (first byte) for lengths >= 1, plus the empty string
 	var n int64
 	core.Par(257, func(j int) {
-		local := map[string]int{}
+		counts := make([][4]int, len(targets))
 		var cnt int64
+		one := func(in []byte) {
+			cnt++
+			nt := len(targets)
+			if len(in) >= 3 {
+				nt = coreTargets
+			}
+			for ti := 0; ti < nt; ti++ {
+				counts[ti][outcomeIndex(c.rlpDiff(targets[ti], in, "exhaustive", nil))]++
+			}
+			c.rawDiff(in)
+		}
 		var rec func(prefix []byte)
 		rec = func(prefix []byte) {
-			cnt++
-			for _, t := range targets {
-				local[t.Name+"/"+c.rlpDiff(t, prefix, "exhaustive", nil)]++
-			}
-			c.rawDiff(prefix)
+			one(prefix)
 			if len(prefix) == maxLen {
 				return
 			}
@@ -304,19 +334,19 @@ func (c *checker) rlpExhaustive(maxLen int) (inputs int64) {
 			}
 		}
 		if j == 256 {
-			cnt++
-			for _, t := range targets {
-				local[t.Name+"/"+c.rlpDiff(t, []byte{}, "exhaustive", nil)]++
-			}
-			c.rawDiff([]byte{})
+			one([]byte{})
 		} else {
 			buf := make([]byte, 1, maxLen)
 			buf[0] = byte(j)
 			rec(buf)
 		}
 		atomic.AddInt64(&n, cnt)
-		for k, v := range local {
-			c.classes.AddN("rlp-exhaustive/"+k, v)
+		for ti, t := range targets {
+			for oi, v := range counts[ti] {
+				if v > 0 {
+					c.classes.AddN("rlp-exhaustive/"+t.Name+"/"+rlpOutcomes[oi], v)
+				}
+			}
 		}
 	})
 	return n
